@@ -1,2 +1,90 @@
-(* placeholder *)
-From Precond Require Import Base.QMat C08.Model C08.Check.
+(* Properties/C08.v — ONLY property theorems of C08 (each closed by [exact lemma]) and their
+   Print Assumptions.  The model (C08.Model) keeps Distributed Shampoo's state the way the code
+   does — one flat list of statistics / preconditioners per parameter, one flat list over all
+   parameters through the padded root computation — and these theorems show that layout to be
+   block diagonal.  Partition arithmetic: C06.Ref (regenerated from /repo's source by C06). *)
+From Precond Require Import Base.PyLib Base.QMat C06.Records C06.Ref C15.Tensor C15.Model C15.Proofs
+     C08.Model C08.Proofs.
+Open Scope Q_scope.
+
+(* One statistics update: the entries [k*np, (k+1)*np) of the flat list are block k's own entries
+   updated with block k's own Gram matrices (all block counts / ranks). *)
+Theorem c08_ds_stats_block_local : forall w1 w2 np blocks stats k blk,
+  uniform_rank np blocks -> length stats = (length blocks * np)%nat ->
+  nth_error blocks k = Some blk ->
+  blockview np k (ds_new_stats w1 w2 blocks stats) =
+  map2 (stat_update w1 w2) (blockview np k stats) (grams blk).
+Proof. exact ds_stats_block_local. Qed.
+Print Assumptions c08_ds_stats_block_local.
+
+(* Non-interference along histories of every length, for every root oracle, block size, shape and
+   refresh pattern: two gradient histories that agree on block k (and refresh statistics at the same
+   steps) give equal statistics, equal roots and an equal preconditioned gradient on block k. *)
+Theorem c08_ds_block_local : forall (root : positive -> mat -> mat) w1 w2 b shape p k h h' stats g0 g g',
+  agree_on b shape k h h' ->
+  length stats = (length (ds_blocks b shape g0) * length shape)%nat ->
+  (k < length (ds_blocks b shape g0))%nat ->
+  nth_error (ds_blocks b shape g) k = nth_error (ds_blocks b shape g') k ->
+  let S := stats_run w1 w2 b shape stats h in let S' := stats_run w1 w2 b shape stats h' in
+  blockview (length shape) k S = blockview (length shape) k S' /\
+  blockview (length shape) k (map (root p) S) = blockview (length shape) k (map (root p) S') /\
+  nth_error (ds_precond_blocks (length shape) (ds_blocks b shape g) (map (root p) S)) k =
+  nth_error (ds_precond_blocks (length shape) (ds_blocks b shape g') (map (root p) S')) k.
+Proof. exact ds_block_local_closed. Qed.
+Print Assumptions c08_ds_block_local.
+
+(* A parameter's roots do not depend on other parameters: the flat list over ALL parameters, padded
+   to the common maximum size, rooted (vmap = map) and regrouped, gives every parameter the roots of
+   its own statistics.  Hypothesis (named): root_padding_invariant — the root of a statistic padded
+   to any size and cropped back is the root of the statistic (C01: masked_closed / padding_start). *)
+Theorem c08_ds_param_local : forall (root : positive -> mat -> nat -> mat),
+  (forall p mx M, (length M <= mx)%nat ->
+     crop (length M) (root p (pad_square mx M) (length M)) = root p M (length M)) ->
+  forall p statss, tree_roots root p statss = map (map (fun M => root p M (length M))) statss.
+Proof. exact ds_param_local. Qed.
+Print Assumptions c08_ds_param_local.
+
+Theorem c08_ds_param_local_nth : forall (root : positive -> mat -> nat -> mat),
+  (forall p mx M, (length M <= mx)%nat ->
+     crop (length M) (root p (pad_square mx M) (length M)) = root p M (length M)) ->
+  forall p statss statss' l, nth_error statss l = nth_error statss' l ->
+  nth_error (tree_roots root p statss) l = nth_error (tree_roots root p statss') l.
+Proof. exact ds_param_local_nth. Qed.
+Print Assumptions c08_ds_param_local_nth.
+
+(* update (blocked tensor) = assemble (map update_single blocks): block by block, the preconditioned
+   gradient of the blocked tensor is what a parameter consisting of that block alone obtains from its
+   own np preconditioners (the grafting multiplier, a parameter-level scalar, is applied afterwards
+   and is C05's subject) ... *)
+Theorem c08_blocked_equals_separate : forall np blocks pre,
+  ds_precond_blocks np blocks pre =
+  map (fun '(k, blk) => hd blk (ds_precond_blocks np [blk] (blockview np k pre)))
+      (combine (seq 0 (length blocks)) blocks).
+Proof. exact blocked_equals_separate. Qed.
+Print Assumptions c08_blocked_equals_separate.
+
+(* ... and a parameter none of whose dimensions exceeds the block size is its own single block. *)
+Theorem c08_single_block : forall (b : Z) (shape : list nat) (g : vec),
+  Forall (fun d => ~ (0 < b /\ b < Z.of_nat d)%Z) shape -> length g = prodn shape ->
+  Forall (fun d => (0 < d)%nat) shape ->
+  ds_blocks b shape g = [mkT shape g].
+Proof. exact single_block. Qed.
+Print Assumptions c08_single_block.
+
+(* Tearfree shampoo._pth_inv_root with the per-block maximum (current code): block local, for every
+   eigh / scalar-root oracle. *)
+Theorem c08_tf_pth_inv_root_block_local : forall eigh hroot p covs covs' k,
+  nth_error covs k = nth_error covs' k ->
+  nth_error (pth_inv_root eigh hroot p covs) k = nth_error (pth_inv_root eigh hroot p covs') k.
+Proof. exact tf_pth_inv_root_block_local. Qed.
+Print Assumptions c08_tf_pth_inv_root_block_local.
+
+(* The whole-batch maximum (code before fix 615398e): refuted — blocks with gradient scales 1 and
+   1e-7 (covariances 1 and 1e-14): the small block's root is 0 next to the unit-scale block. *)
+Theorem c08_tf_pth_inv_root_old_refuted :
+  exists covs covs' k,
+    nth_error covs k = nth_error covs' k /\
+    nth_error (pth_inv_root_old eigh_1x1 (fun _ _ => 1) 2 covs) k <>
+    nth_error (pth_inv_root_old eigh_1x1 (fun _ _ => 1) 2 covs') k.
+Proof. exact tf_pth_inv_root_old_refuted. Qed.
+Print Assumptions c08_tf_pth_inv_root_old_refuted.
